@@ -25,8 +25,9 @@ Init == \/ \E v \in IdVariants : sh = [id |-> v, fields |-> <<>>]
         \/ \E a1 \in {"attr", "rel,tt"}, a2 \in {"attr", "rel,tt"}, g1 \in {"string", "*int"}, g2 \in {"string", "[]string"} :
               sh = [id |-> "ok", fields |-> <<F(g1, "a", a1), F(g2, "a", a2)>>]
         \* a field without api tag that reuses the json name of a tagged one, in both orders
-        \/ \E a1 \in {"attr", "rel,tt"}, g1 \in {"string", "*int", "[]string"}, g2 \in {"string", "*int", "[]string", "bool"}, first \in BOOLEAN :
-              sh = [id |-> "ok", fields |-> IF first THEN <<F(g1, "a", a1), F(g2, "a", "")>> ELSE <<F(g2, "a", ""), F(g1, "a", a1)>>]
+        \/ \E a1 \in {"attr", "rel,tt"}, g1 \in {"string", "*int", "[]string"}, g2 \in {"string", "*int", "[]string", "bool"}, first \in BOOLEAN,
+              a2 \in {"", "other", "attr,omitempty"} :    \* no api tag, or one that is neither attr nor rel
+              sh = [id |-> "ok", fields |-> IF first THEN <<F(g1, "a", a1), F(g2, "a", a2)>> ELSE <<F(g2, "a", a2), F(g1, "a", a1)>>]
         \/ (Pairs /\ \E f \in FieldSpecs, g \in FieldSpecs :
               (f.api # "" /\ g.api # "" /\ f.json \in {"a", ""} /\ g.gotype \in {"string", "[]string", "*int"}) /\
               sh = [id |-> "ok", fields |-> <<f, g>>])
